@@ -81,8 +81,9 @@ def exit_obligations(ctx, F, res, tag, want_int=True):
                        False, {"failed_call": fl, "returns": show(rv), "analysis": tag}, nontrivial=True)
             else:
                 ctx.ob("C04.E1", site + " [after %s]" % fl.split("@")[0],
-                       "a failed call on the start path makes the function return a negative error",
-                       all_neg(rv), {"failed_call": fl, "returns": show(rv), "analysis": tag}, nontrivial=True)
+                       "a failed call on the start path makes the function return a negative error (the system's error code, not the "
+                       "raw -1 of the failed call)", all_neg(rv) and rv != fs(-1), {"failed_call": fl, "returns": show(rv), "analysis": tag},
+                       nontrivial=True)
         ei = st.mon.get("eintr")
         if ei:
             ctx.ob("C04.E1i", site + " [after EINTR in %s]" % ei.split("@")[0],
@@ -91,8 +92,36 @@ def exit_obligations(ctx, F, res, tag, want_int=True):
     return n
 
 
+def error_code_rule(ctx, prog):
+    """E1c: "returns that negative system error": the descriptor helpers report a failed libc call as -errno, never as the raw
+    -1 the call itself returned (which the callers, and in the child the error pipe, would pass on as the code EPERM)"""
+    from ..absint import State
+    n = 0
+    for F in prog.funcs_all:
+        fname = F.file.rsplit("/", 1)[-1]
+        if fname not in ("handle.posix.c", "pipe.posix.c", "redirect.posix.c"):
+            continue
+        ext = [x for x in F.walk() if x["k"] == "CallExpr" and x.get("callee") and x["callee"] not in prog.funcs
+               and x["callee"] not in ("__assert_fail", "__errno_location")]
+        if not ext:
+            continue
+        I = new_interp(prog)
+        I.overrides.pop(F.name, None)
+        try:
+            res = I.run(F, [State()])
+        except AnalysisBroken:
+            continue
+        raw = sorted({ret_site(F, st)[0] + " after " + str(st.mon.get("failed")) for st, rv in res.exits
+                      if st.mon.get("failed") and str(st.mon.get("failed")).split("@")[-1].startswith(F.name + ":") and rv == fs(-1)})
+        n += 1
+        ctx.ob("C04.E1c", F.name, "a failed system call is reported as -errno, not as the raw -1 the call returned (start would pass that "
+               "on as the error code EPERM instead of the real cause)", not raw, {"raw_minus_one_returned_at": raw[:3]}, nontrivial=True)
+    ctx.floor("C04.E1c", 6)
+
+
 def check(ctx):
     prog = ctx.prog("posix-mt")
+    error_code_rule(ctx, prog)
     # ---- process_fork stand-alone (+ summary agreement)
     Ff = prog.fn("process_fork")
     If = new_interp(prog, extra_models={"read": m_read_errpipe})
